@@ -207,11 +207,11 @@ func readTrace(path string) []mutation {
 }
 
 type crashCase struct {
-	K       int64  `json:"k"`
-	Torn    int64  `json:"torn,omitempty"`
-	K2      int64  `json:"k2,omitempty"`          // second crash: k-th mutation of the recovery run
-	ExtStep int    `json:"ext_step,omitempty"`    // external SIGKILL issued while this step is in flight (thorough)
-	Window  int    `json:"window_step,omitempty"` // flush step held open after its WAL switch (hook point) while the following writes are acknowledged, then SIGKILL
+	K       int64 `json:"k"`
+	Torn    int64 `json:"torn,omitempty"`
+	K2      int64 `json:"k2,omitempty"`          // second crash: k-th mutation of the recovery run
+	ExtStep int   `json:"ext_step,omitempty"`    // external SIGKILL issued while this step is in flight (thorough)
+	Window  int   `json:"window_step,omitempty"` // flush step held open after its WAL switch (hook point) while the following writes are acknowledged, then SIGKILL
 	// pattern crash: die before the PatN-th mutation of kind PatKind whose path contains
 	// PatPath (background work such as index-part merges has no fixed position k)
 	PatKind string `json:"pattern_kind,omitempty"`
@@ -894,6 +894,9 @@ func main() {
 	var wg sync.WaitGroup
 	var mu sync.Mutex
 	totalCases := 0
+	if os.Getenv("C01_ONLY_CONCURRENT") != "" { // development aid: the concurrent rounds alone
+		nh = -1
+	}
 	for hi := 0; hi <= nh; hi++ {
 		churn := hi == nh // the last one: series churn, crash positions by pattern only
 		cpus := cpuChoices[hi%len(cpuChoices)]
